@@ -24,4 +24,4 @@ require (
 	golang.org/x/sys v0.30.0 // indirect
 )
 
-replace github.com/flamego/flamego => /tmp/flamego-seed-p7t4algj
+replace github.com/flamego/flamego => /tmp/flamego-seed-yw5wbljj
